@@ -98,6 +98,8 @@ structure PSt where
   ident : JavaIdent.ISt := {}
 
 def step (st : PSt) (j : Json) : PSt × Json :=
+  -- sources with constructs outside the model (anonymous classes): judged by the statement-level oracle only
+  if boolD j "unmodelled" then (st, Json.mkObj [("unmodelled", Json.bool true)]) else
   let units := (arr j "units").map fun u => (strD u "path", (arr u "events").map decEv)
   let iunits := (arr j "units").map fun u => (strD u "path", (arr u "ievents").map decIEv)
   let pathsOf : Json → List String := fun r => match r with
